@@ -282,9 +282,9 @@ def run(E: Engine, rep: Report, tier: str) -> dict:
         for l in Sf.log:
             for t in (l.target, l.value, l.cond):
                 for x in sym.subterms(t) if t is not None else ():
-                    if x[0] != "mul" or x in seen_terms:
+                    if x[0] != "mul" or (x, id(l.node)) in seen_terms:
                         continue
-                    seen_terms.add(x)
+                    seen_terms.add((x, id(l.node)))
                     facs = x[1:]
                     dur = [y for y in facs if mentions(y, "_tot_duration", "total_duration_ns") and y[0] != "inv"]
                     inv_dur = [y for y in facs if y[0] == "inv" and mentions(y[1], "_tot_duration", "total_duration_ns")]
@@ -295,6 +295,8 @@ def run(E: Engine, rep: Report, tier: str) -> dict:
                         kind = "duration * 1e-3"
                     elif dur and inv1000:
                         kind = "duration / 1000"
+                    elif inv_dur and ("inv", ("const", 0.001)) in facs:
+                        kind = "duration * 1e-3"
                     elif inv_dur and c is not None and abs(c - 1e3) < 1e-9:
                         kind = "t / duration * 1e3  (= t / (duration / 1000) up to rounding)"
                     elif inv_dur and mentions(inv_dur[0], "_tot_duration", "total_duration_ns") and any(sym.is_num(z) and abs(z[1] - 1e-3) < 1e-18 for z in (inv_dur[0][1][1:] if inv_dur[0][1][0] == "mul" else ())):
